@@ -25,6 +25,7 @@ SHARED = {   # enable shares an input with the data
 READERS = {
     "bare": ["bare"], "arith": ["arith"], "arith+cmp": ["arith", "cmp"],
     "arith+cmp+lamp": ["arith", "cmp", "lamp"], "bare+arith": ["bare", "arith"], "none-but-lamp": ["lamp"],
+    "mix+arith": ["mix", "arith"],
 }
 DOM = {"d": [0, 1, 5, -3], "c": [0, 1, 2], "t": [0, 1, 2], "s": [0, 1, 2]}
 
@@ -49,6 +50,10 @@ def program(vexpr, cexpr, explicit, readers, cell="m", suffix=""):
         elif r == "cmp":
             body.append(("decl", "Signal", "o2" + suffix, B(">", ("read", cell), I(2))))
             outs.append("o2" + suffix)
+        elif r == "mix":
+            wv = ("proj", vexpr, "signal-M") if explicit else vexpr
+            body.append(("decl", "Signal", "o3" + suffix, B("-", wv, ("read", cell))))
+            outs.append("o3" + suffix)
         elif r == "lamp":
             body.append(("place", "lamp" + suffix, "small-lamp", I(0), I(-6), None))
             body.append(("prop", "lamp" + suffix, "enable", B(">", ("read", cell), I(0))))
@@ -66,6 +71,74 @@ def mk(family, vname, cname, vexpr, cexpr, explicit, rname, optimize=True):
             "stmts": gen.prog_with_inputs(inputs, body), "inputs": inputs,
             "domains": {i: DOM[i] for i in inputs}, "outputs": outs, "entities": ents,
             "vexpr": vexpr, "cexpr": cexpr, "opts": {"optimize": optimize}}
+
+
+TWO = {
+    # tag -> (data1, enable1, data2, enable2); cell 2 may read cell 1
+    "same-enable-expr": (V("d"), B(">", V("t"), I(0)), V("c"), B(">", V("t"), I(0))),
+    "same-enable-arith": (V("d"), B(">", B("+", V("t"), V("s")), I(0)), V("c"), B(">", B("+", V("t"), V("s")), I(0))),
+    "same-data-expr": (B("+", V("d"), I(1)), B(">", V("t"), I(0)), B("+", V("d"), I(1)), B(">", V("s"), I(0))),
+    "different": (V("d"), B(">", V("t"), I(0)), V("c"), B(">", V("s"), I(0))),
+    "identical-cells": (V("d"), B(">", V("t"), I(0)), V("d"), B(">", V("t"), I(0))),
+    "chained": (V("d"), B(">", V("t"), I(0)), ("read", "m1"), B(">", V("s"), I(0))),
+    "raw-enable-shared": (V("d"), V("t"), V("c"), V("t")),
+}
+
+
+def two_cell_cases(tier):
+    out = []
+    for tag, (v1, c1, v2, c2) in TWO.items():
+        for explicit in (True, False):
+            body = []
+            for cell, v, c in (("m1", v1, c1), ("m2", v2, c2)):
+                if explicit:
+                    body += [("mem", cell, "signal-M"), ("write", cell, ("proj", v, "signal-M"), c)]
+                else:
+                    body += [("mem", cell, None), ("write", cell, v, c)]
+            body += [("decl", "Signal", "p1", B("+", ("read", "m1"), I(1))), ("decl", "Signal", "p2", B("+", ("read", "m2"), I(2)))]
+            used = set()
+            for e in (v1, c1, v2, c2):
+                gen.vars_in(e, used)
+            inputs = [n for n in gen.INPUT_DECL if n in used]
+            dom = {"d": [0, 1, 5], "c": [0, 2, 7], "t": [0, 1], "s": [0, 1]}
+            out.append({"family": "two-cells", "tag": tag, "explicit": explicit, "stmts": gen.prog_with_inputs(inputs, body),
+                        "inputs": inputs, "domains": {i: dom[i] for i in inputs}, "outputs": ["p1", "p2"],
+                        "exprs": [v1, c1, v2, c2], "opts": {"optimize": True}})
+    return out
+
+
+def run_two_cells(case):
+    stmts = gen.thaw(case["stmts"])
+    v1, c1, v2, c2 = (gen.thaw(e) for e in case["exprs"])
+    inputs = case["inputs"]
+    decls = [gen.INPUT_DECL[i] for i in inputs]
+
+    def step(q, val):
+        q1, q2 = q
+        env = lang.Env(val)
+        lang.run(decls, env)
+        env.mem_read = lambda m: lang.Sig(None, q1)       # cell 2 may read cell 1 (its previous settled value)
+        n1 = lang.val(lang.ev(v1, env)) if lang.val(lang.ev(c1, env)) > 0 else q1
+        env.mem_read = lambda m: lang.Sig(None, n1)
+        n2 = lang.val(lang.ev(v2, env)) if lang.val(lang.ev(c2, env)) > 0 else q2
+        return (n1, n2)
+
+    def types():
+        env = lang.Env({i: 1 for i in inputs})
+        lang.run(decls, env)
+        env.mem_read = lambda m: lang.Sig(None, 0)
+        t1 = "signal-M" if case["explicit"] else lang.ev(v1, env).type
+        env.mem_read = lambda m: lang.Sig(t1, 0)
+        t2 = "signal-M" if case["explicit"] else lang.ev(v2, env).type
+        return t1, t2
+    t1, t2 = types()
+
+    def ref_step(q, val, event):
+        return [step(q or (0, 0), val)]
+
+    def ref_expect(q, val):
+        return {"p1": lang.Sig(t1, q[0] + 1), "p2": lang.Sig(t2, q[1] + 2)}
+    return explore.run_bfs(stmts, inputs, case["domains"], case["opts"], case["outputs"], None, ref_step, ref_expect)
 
 
 class C03(core.Check):
@@ -87,18 +160,21 @@ class C03(core.Check):
             for cn, ce in ENABLE.items():
                 for explicit in (True, False):
                     rs = READERS if (tier == "thorough" or (vn in ("d", "d*c") and cn in ("t>0", "t", "t>0&&s>0"))) \
-                        else {"arith+cmp": 0, "bare": 0}
+                        else {"arith+cmp": 0, "bare": 0, "mix+arith": 0}
                     for rn in rs:
                         out.append(mk("disjoint", vn, cn, ve, ce, explicit, rn))
         for sn, (ve, ce) in SHARED.items():
             for explicit in (True, False):
                 for rn in ("arith+cmp", "bare"):
                     out.append(mk("shared", sn, sn, ve, ce, explicit, rn))
+        out += two_cell_cases(tier)
         if tier == "thorough":
             out += [dict(c, opts={"optimize": False}) for c in list(out)]
         return out
 
     def run_case(self, case):
+        if case["family"] == "two-cells":
+            return run_two_cells(case)
         stmts = gen.thaw(case["stmts"])
         vexpr, cexpr = gen.thaw(case["vexpr"]), gen.thaw(case["cexpr"])
         inputs = case["inputs"]
@@ -134,6 +210,8 @@ class C03(core.Check):
                     exp[o] = lang.Sig(celltype, q + 1)
                 elif o == "o2":
                     exp[o] = lang.Sig(celltype, 1 if q > 2 else 0)
+                elif o == "o3":
+                    exp[o] = lang.Sig(celltype, vc(val)[0].value - q)
             for e in case["entities"]:
                 exp[e] = q > 0
             return exp
